@@ -323,8 +323,16 @@ func clLatestTrace(out *clOutcome, hostile bool) (string, bool) {
 func init() {
 	c14GenTraces = func(g *Gen, n int) {
 		wseed := g.U64()%1000 + 1
+		// traces are validated by a search over the invisible steps of the Lean machine: keep the quick-tier bounds
+		// (at most 4 goroutines, 2 clients) in every tier — the thorough tier validates MORE traces, not larger ones
+		saved := thorough
+		thorough = false
+		defer func() { thorough = saved }()
 		for i := 0; i < n; i++ {
 			line, _ := c14Scenario(g.Rand, wseed+uint64(i%5))
+			if i%5 == 4 {
+				line = c14StaleFlushScenario(g.Rand, wseed+uint64(i%5), true)
+			}
 			sc, ok := clParseScenario(strings.Fields(line)[1:])
 			if !ok {
 				continue
